@@ -67,6 +67,16 @@ def snake_upper(cls):
 
 
 
+def canon_json(d):
+    """JSON value with the arrays that render unordered collections sorted (their order may differ between two renderings
+    of the same store)"""
+    if isinstance(d, dict):
+        return {k: canon_json(v) for k, v in d.items()}
+    if isinstance(d, list):
+        return sorted((canon_json(x) for x in d), key=lambda x: json.dumps(x, sort_keys=True))
+    return d
+
+
 def xml_norm(c):
     """The XML text layer has no empty string: the four optional strings of a DataSpecificationIEC61360 come back as None
     when they are "" (property C04's input space excludes them for the same reason).  Applied to the expected value of the
@@ -184,6 +194,26 @@ def _run(chk):
         b = io.BytesIO()
         write_aas_xml_file(b, store)
         docs[("xml", False)] = b.getvalue()
+        # the stripped / full document must not depend on the kind of destination (text or binary stream, path, temporary
+        # file ...) nor on the entry point (write_aas_json_file / object_store_to_json / explicit encoder class)
+        kinds = c03.STREAM_KINDS + ("string",)
+        for st in (True, False):
+            want_doc = json.loads(docs[("json", st)])
+            for how, kw in ((kinds[i % len(kinds)], {"stripped": st}), (kinds[(i + 3) % len(kinds)], {"stripped": st}),
+                            (kinds[(i + 5) % len(kinds)], {"encoder": StrippedAASToJsonEncoder if st else AASToJsonEncoder}),
+                            (kinds[(i + 7) % len(kinds)], {"encoder": StrippedAASToJsonEncoder if st else AASToJsonEncoder,
+                                                           "stripped": not st})):
+                chk.count(f"writer-destination:{how}")
+                try:
+                    got_doc = json.loads(c03.write_json(store, how, **kw))
+                    d = aasgen.diff(canon_json(want_doc), canon_json(got_doc))
+                except Exception as e:
+                    d = f"/: raised {type(e).__name__}: {str(e)[:120]}"
+                if d:
+                    chk.fail(sig("writer-destination", d),
+                             f"{'stripped' if st else 'full'} JSON document written through destination '{how}' with {sorted(kw)} "
+                             f"differs from the one written to a text stream: {d}", {"destination": how, "kw": sorted(kw),
+                                                                                     "stripped": st, "document": docs[("json", st)][:3000]})
         want_full = c03.strip_type(aasgen.canon_store(store))
         for (fmt, st), text in docs.items():
             # a full read of the same document before (even stores) or after (odd stores) the stripped reads: the two kinds
